@@ -48,9 +48,9 @@ def hash_node(
             names = [child.name]
         else:
             things_to_hash.extend(
-                (key, value)
+                (key, type(value), value)
                 for key, value in child.__dict__.items()
-                if isinstance(value, (str, int))
+                if isinstance(value, (str, int, float, complex, bytes, type(None), type(...)))
                 if key not in {"lineno", "end_lineno", "col_offset", "end_col_offset"}
             )
         for name in names:
